@@ -20,7 +20,11 @@ RULE = ('E1: the 21 validating classes + Basic.Properties (from the spec '
         'every step / first and last / last only. '
         'Oracle: an independent predicate written from the statement; '
         'ValueError iff broken; never on decode. A case is (site, value, '
-        'way); non-trivial = value differs from the default.')
+        'way); non-trivial = value differs from the default.'
+        ' '
+        'Also: the same on objects obtained from the decoder, copy, '
+        'deepcopy and pickle (where an object comes from must not '
+        'matter to what its encode validates).')
 BOUNDS = {'quick': {'full_code_point_sweep': 'Exchange.Declare.exchange, '
                     'Queue.Declare.queue', 'other_sites': '0..0x2FF + 64 '
                     'look-alikes'},
